@@ -50,8 +50,9 @@ def gen_sequence(rng, syms):
     if kind == "arithmetic":
         return {"kind": kind, "initial_term": p(), "difference": p()}
     if kind == "geometric":
-        q = p()
-        return {"kind": kind, "ratio": E.num(2) if q == E.num(1) else q}   # ratio 1 is outside C07 (0/0 in the closed form)
+        # ratio 1 is outside C07 (the closed form is 0/0 = nan, not a finite value); a symbolic ratio could be linked
+        # to an expression that folds to 1, so hierarchies use literal ratios (symbolic ratios: stream rep-direct)
+        return {"kind": kind, "ratio": E.num(rng.choice([2, 3, Fraction(1, 2), Fraction(3, 2)]))}
     if kind == "closed_form":
         k = "k"
         body = rng.choice([
@@ -72,13 +73,14 @@ def gen_sequence(rng, syms):
 # ------------------------------------------------------------------ hierarchy generator (mostly valid)
 
 class Gen:
-    def __init__(self, rng, max_depth=3, max_children=3, p_rep=0.2, p_through=0.1, allow_other=True):
+    def __init__(self, rng, max_depth=3, max_children=3, p_rep=0.2, p_through=0.1, allow_other=True, p_shuffle=0.5):
         self.rng = rng
         self.max_depth = max_depth
         self.max_children = max_children
         self.p_rep = p_rep
         self.p_through = p_through
         self.allow_other = allow_other
+        self.p_shuffle = p_shuffle
         self.nodes = 0
 
     def subset(self, pool, lo, hi):
@@ -168,7 +170,7 @@ class Gen:
         open_wires = [f"in_{k}" for k in range(n_in)]
         children, connections = [], []
         for cn in names:
-            k_in = len(open_wires) if is_rep else rng.randint(0, min(2, len(open_wires)))
+            k_in = len(open_wires) if is_rep else rng.randint(0, min(3, len(open_wires)))
             child, c_out = self.build(cn, depth - 1, k_in, under_rep or is_rep)
             srcs = rng.sample(open_wires, k_in)
             in_ports = [p for p in child["ports"] if p["direction"] in ("input", "through")]
@@ -217,13 +219,14 @@ class Gen:
                 cn, rn, rt = rng.choice(child_res)
                 val = E.op("add", E.op("mul", E.num(rng.randint(2, 3)), E.sym(f"{cn}.{rn}")),
                            gen_expr(rng, scope_l, 1) if scope_l else E.num(1))
-                resources.append({"name": rn, "type": rt, "value": val})
+                # the routine's own definition may carry another type than the child's resource of the same name
+                resources.append({"name": rn, "type": rt if rng.random() < 0.6 else rng.choice(["other", "additive", "qubits"]), "value": val})
             if scope_l and rng.random() < 0.3 and not under_rep and not any(x["name"] == "own" for x in resources):
                 resources.append({"name": "own", "type": "additive", "value": gen_expr(rng, scope_l, 2)})
         node = {"name": name, "type": rng.choice([None, "comp"]), "input_params": params, "local_variables": locals_,
                 "linked_params": linked_params, "ports": ports, "resources": resources, "connections": connections,
                 "repetition": repetition, "children": children}
-        if rng.random() < 0.5:
+        if rng.random() < self.p_shuffle:
             rng.shuffle(node["children"])
         return node, n_out
 
